@@ -49,6 +49,8 @@ use crate::api::{
 mod async_io;
 mod config;
 mod file_handle;
+#[cfg(fuse_backend_rs_verif)]
+pub mod verif_sched;
 mod inode_store;
 mod mount_fd;
 mod os_compat;
@@ -170,6 +172,19 @@ impl InodeData {
     }
 }
 
+// Verification hook H1: yield points for a controlled scheduler, nothing unless built with
+// `--cfg fuse_backend_rs_verif`.
+#[cfg(fuse_backend_rs_verif)]
+macro_rules! verif_point {
+    ($id:ident) => {
+        verif_sched::point(verif_sched::$id)
+    };
+}
+#[cfg(not(fuse_backend_rs_verif))]
+macro_rules! verif_point {
+    ($id:ident) => {};
+}
+
 /// Data structures to manage accessed inodes.
 struct InodeMap {
     inodes: RwLock<InodeStore>,
@@ -187,8 +202,43 @@ impl InodeMap {
         self.inodes.write().unwrap().clear();
     }
 
+    /// Verification hook H1: take the lock by polling so that a controlled scheduler sees the
+    /// wait instead of losing the thread inside the lock.
+    #[cfg(fuse_backend_rs_verif)]
+    fn verif_read(&self) -> std::sync::RwLockReadGuard<'_, InodeStore> {
+        loop {
+            match self.inodes.try_read() {
+                Ok(g) => return g,
+                Err(std::sync::TryLockError::WouldBlock) => {
+                    if !verif_sched::waiting(verif_sched::POINT_WAIT_READ_LOCK) {
+                        return self.inodes.read().unwrap();
+                    }
+                }
+                Err(std::sync::TryLockError::Poisoned(e)) => panic!("{}", e),
+            }
+        }
+    }
+
+    #[cfg(fuse_backend_rs_verif)]
+    fn verif_write(&self) -> RwLockWriteGuard<'_, InodeStore> {
+        loop {
+            match self.inodes.try_write() {
+                Ok(g) => return g,
+                Err(std::sync::TryLockError::WouldBlock) => {
+                    if !verif_sched::waiting(verif_sched::POINT_WAIT_WRITE_LOCK) {
+                        return self.inodes.write().unwrap();
+                    }
+                }
+                Err(std::sync::TryLockError::Poisoned(e)) => panic!("{}", e),
+            }
+        }
+    }
+
     fn get(&self, inode: Inode) -> io::Result<Arc<InodeData>> {
+        #[cfg(fuse_backend_rs_verif)]
+        return self.verif_read().get(&inode).cloned().ok_or_else(ebadf);
         // Do not expect poisoned lock here, so safe to unwrap().
+        #[cfg(not(fuse_backend_rs_verif))]
         self.inodes
             .read()
             .unwrap()
@@ -209,7 +259,10 @@ impl InodeMap {
     }
 
     fn get_alt(&self, id: &InodeId, handle: Option<&FileHandle>) -> Option<Arc<InodeData>> {
+        #[cfg(fuse_backend_rs_verif)]
+        let inodes = self.verif_read();
         // Do not expect poisoned lock here, so safe to unwrap().
+        #[cfg(not(fuse_backend_rs_verif))]
         let inodes = self.inodes.read().unwrap();
 
         Self::get_alt_locked(inodes.deref(), id, handle)
@@ -239,7 +292,10 @@ impl InodeMap {
     }
 
     fn get_map_mut(&self) -> RwLockWriteGuard<'_, InodeStore> {
+        #[cfg(fuse_backend_rs_verif)]
+        return self.verif_write();
         // Do not expect poisoned lock here, so safe to unwrap().
+        #[cfg(not(fuse_backend_rs_verif))]
         self.inodes.write().unwrap()
     }
 
@@ -677,19 +733,24 @@ impl<S: BitmapSlice + Send + Sync> PassthroughFs<S> {
         let id = InodeId::from_stat(&st);
 
         let mut found = None;
+        verif_point!(POINT_LOOKUP_BEFORE_PROBE);
         'search: loop {
             match self.inode_map.get_alt(&id, handle_opt.as_ref()) {
                 // No existing entry found
                 None => break 'search,
                 Some(data) => {
+                    verif_point!(POINT_LOOKUP_PROBE_HIT);
                     let curr = data.refcount.load(Ordering::Acquire);
                     // forgot_one() has just destroyed the entry, retry...
                     if curr == 0 {
+                        #[cfg(fuse_backend_rs_verif)]
+                        verif_sched::waiting(verif_sched::POINT_LOOKUP_RETRY);
                         continue 'search;
                     }
 
                     // Saturating add to avoid integer overflow, it's not realistic to saturate u64.
                     let new = curr.saturating_add(1);
+                    verif_point!(POINT_LOOKUP_BEFORE_CAS);
 
                     // Synchronizes with the forgot_one()
                     if data
@@ -713,6 +774,7 @@ impl<S: BitmapSlice + Send + Sync> PassthroughFs<S> {
                 InodeHandle::File(path_fd)
             };
 
+            verif_point!(POINT_LOOKUP_BEFORE_WRITE_LOCK);
             // Write guard get_alt_locked() and insert_lock() to avoid race conditions.
             let mut inodes = self.inode_map.get_map_mut();
 
@@ -728,6 +790,7 @@ impl<S: BitmapSlice + Send + Sync> PassthroughFs<S> {
                     data.inode
                 }
                 None => {
+                    verif_point!(POINT_LOOKUP_LOCKED_BEFORE_INSERT);
                     let inode = self.allocate_inode(inodes.deref(), &id, handle_opt.as_ref())?;
 
                     if inode > VFS_MAX_INO {
@@ -799,6 +862,7 @@ impl<S: BitmapSlice + Send + Sync> PassthroughFs<S> {
                     .is_ok()
                 {
                     if new == 0 {
+                        verif_point!(POINT_FORGET_BEFORE_REMOVE);
                         // We just removed the last refcount for this inode.
                         // The allocated inode number should be kept in the map when use_host_ino
                         // is false or host inode(don't use the virtual 56bit inode) is bigger than MAX_HOST_INO.
